@@ -376,9 +376,21 @@ def run_batch(cases, cycles, acc, attributed, say=None):
         obj = objs[(c.si, c.sid)]
         c.want = expected(level, s)
         try:
-            accessor(obj, c.kind, level, c.pi, c.ri).text = s
+            if (c.sid + len(s)) % 3 == 0:
+                # one proxy object kept across two assignments and the read (a caller holding `tf = shape.text_frame`):
+                # anything the proxy remembers from the first assignment must not show in the second
+                a = accessor(obj, c.kind, level, c.pi, c.ri)
+                a.text = "pr\nior\v x"
+                a.text = s
+                got = a.text
+                acc.count("assignments_through_a_proxy_that_was_assigned_before")
+                again = accessor(obj, c.kind, level, c.pi, c.ri).text
+                if again != got:
+                    vio(c, "readback:%s:proxy-disagrees" % level, "the proxy assigned through reads %r, a fresh one %r" % (got, again))
+            else:
+                accessor(obj, c.kind, level, c.pi, c.ri).text = s
+                got = accessor(obj, c.kind, level, c.pi, c.ri).text
             acc.hit(API[level] + " setter")
-            got = accessor(obj, c.kind, level, c.pi, c.ri).text
             acc.hit(API[level] + " getter")
         except Exception as e:  # noqa - every generated string is in the domain: no rejection is documented
             vio(c, "readback:%s:raises-%s" % (level, type(e).__name__), "raised %r" % e)
